@@ -1,0 +1,15 @@
+//go:build verif
+
+package sqlc
+
+// Contracts for the deductive verifier in /verif (govc). Comment-only file: adds no code.
+
+// ExecCtx: write the database first, then delete the named keys; a failed write deletes nothing.
+//@ func (CachedConn).ExecCtx
+//@   prop C06
+//@   opaque DelCacheCtx
+//@   ensures [db-first] calls(exec) == 1 && arg(exec, 0) == ctx
+//@   ensures [failed-write-keeps-cache] ret(exec, 1) != nil ==> calls(DelCacheCtx) == 0 && result1 == ret(exec, 1) && result0 == nil
+//@   ensures [then-delete-keys] ret(exec, 1) == nil ==> calls(cc.DelCacheCtx) == 1 && arg(DelCacheCtx, 1) == ctx && arg(DelCacheCtx, 2) == keys && before(exec, DelCacheCtx)
+//@   ensures [delete-error-reported] ret(exec, 1) == nil && ret(DelCacheCtx) != nil ==> result1 == ret(DelCacheCtx) && result0 == nil
+//@   ensures [result] ret(exec, 1) == nil && ret(DelCacheCtx) == nil ==> result0 == ret(exec, 0) && result1 == nil
